@@ -21,7 +21,7 @@ import json, os
 
 from harness import tlc, graph, tlaval
 from harness.tlaval import seq
-from harness.regkit import Walker, env_labels
+from harness.regkit import Walker, env_labels, fast_dump
 from harness import trustkit
 from harness.trustkit import Scenario, KeyPool
 
@@ -112,11 +112,7 @@ def walk(ctx, g, w, init, labels, kt, pool, cache, tag, learn=None):
         for act, args in labels:
             if not w.enabled(belief, act, args):
                 break
-            try:
-                run.apply(act, args)
-            except (KeyError, IndexError):
-                print('DEBUG', done, act, args, [proj(g.state[t]) for t in belief], run.obs())
-                raise
+            run.apply(act, args)
             done.append([act] + list(args))
             robj = {'kind': 'path', 'world': world, 'insts': insts, 'labels': done}
             obs = run.obs()
@@ -152,25 +148,10 @@ def walk(ctx, g, w, init, labels, kt, pool, cache, tag, learn=None):
     return len(done)
 
 
-class _LazyStates(dict):
-    def __init__(self, raw):
-        super().__init__()
-        self.raw = raw
-
-    def __missing__(self, k):
-        v = tlaval.parse_state(self.raw[k])
-        self[k] = v
-        return v
-
-    def __len__(self):
-        return len(self.raw)
-
-
 def stage_b(ctx, name, cs, pool, cache, kts, max_paths=None, learn=None):
     cfgp = os.path.join(tlc.BUILD, 'TrustChain_g_%s.cfg' % name)
     tlc.write_cfg(cfgp, constants=cs, invariants=['TypeOK'])
-    g = graph.dump('TrustChain', cfgp, workers=4, tag='c14g', parse_states=False)
-    g.state = _LazyStates(g.state)
+    g = fast_dump('TrustChain', cfgp, workers=4, tag='c14g')
     ctx.add_tlc('TrustChain graph %s (%d edges)' % (name, g.n_edges), g.tlc)
     w = Walker(g, ENV, proj)
     paths = graph.edge_cover_paths(g, max_len=60, max_paths=max_paths, rng=ctx.rng)
@@ -381,14 +362,19 @@ def judge(ctx, recs, tag, forced):
 def stage_a(ctx):
     from concurrent.futures import ThreadPoolExecutor
     workers = ctx.pick(4, 8)
-    big = [('depth<=%d, 3 validations' % ctx.pick(3, 4), consts(INSTS2, 3, ctx.pick('W3', 'W4')), INVS, [], True, True)]
+    if ctx.quick:
+        big = [('depth<=3, 2 validations', consts(INSTS2, 2, 'W3'), INVS, [], True, True),
+               ('orders, 3 validations', consts(INSTS2, 3, 'WOrd', anchors='MCAnchorsGood'), INVS, [], False, True)]
+    else:
+        big = [('depth<=4, 3 validations', consts(INSTS2, 3, 'W4'), INVS, [], True, True)]
     # termination (liveness) on a smaller configuration
-    big.append(('liveness depth<=3, 2 validations', consts(INSTS2, 2, 'W3', anchors='MCAnchorsGood'), ['TypeOK'], ['Terminates'], False, True))
+    big.append(('liveness depth<=%d, 2 validations' % ctx.pick(2, 3), consts(INSTS2, 2, ctx.pick('W2', 'W3'), anchors='MCAnchorsGood'),
+                ['TypeOK'], ['Terminates'], False, True))
     # the declarative ChainExists equals the walk on every world (no instances: initial states only)
     big.append(('ChainDefsAgree', consts([], 0, 'W4'), ['ChainDefsAgree'], [], False, False))
     jobs = []
     for name, cs, invs, props, cov, heavy in big:
-        cfgp = os.path.join(tlc.BUILD, 'TrustChain_a_%s_%s.cfg' % (name.split()[0].replace('<=', ''), ctx.tier))
+        cfgp = os.path.join(tlc.BUILD, 'TrustChain_a_%s_%s.cfg' % (name.replace('<=', '').replace(', ', '_').replace(' ', '_'), ctx.tier))
         tlc.write_cfg(cfgp, spec='FairSpec' if props else 'Spec', constants=cs, invariants=invs, properties=props)
         jobs.append((name, cfgp, cov, heavy))
 
@@ -411,7 +397,7 @@ def stage_a(ctx):
         wp = os.path.join(tlc.BUILD, 'TrustChain_w_%s.cfg' % wname)
         tlc.write_cfg(wp, constants=consts(INSTS2, 2, 'W3'), invariants=[wname])
         small.append(('witness', wname, wp))
-    for d, worlds in (('SharedCache', 'W2'), ('LoopRefetch', 'W3'), ('Ed25519Unsupported', 'WEd')):
+    for d, worlds in (('SharedCache', 'WClean'), ('LoopRefetch', 'WLoop'), ('Ed25519Unsupported', 'WEd')):
         dp = os.path.join(tlc.BUILD, 'TrustChain_d_%s.cfg' % d)
         tlc.write_cfg(dp, constants=consts(INSTS2, 2, worlds, [d]), invariants=['NothingBad'])
         small.append(('deviation', d, dp))
@@ -464,10 +450,10 @@ def run(ctx):
         kts = ['ec'] * 9 + ['rsa'] if ctx.quick else ['ec'] * 5 + ['rsa']
         # every world (depth, deviation, link), one validation at a time, both instances, good and bad anchors
         stage_b(ctx, 'main', consts(INSTS2, ctx.pick(1, 2), ctx.pick('W3', 'W4'), unk, has), pool, cache, kts,
-                max_paths=ctx.pick(700, 12000))
+                max_paths=ctx.pick(350, 8000))
         # orders / interleavings of up to 3 validations by two instances on a few worlds
         stage_b(ctx, 'orders', consts(INSTS2, ctx.pick(2, 3), 'WOrd', unk, has, anchors='MCAnchorsGood'), pool, cache, ['ec'],
-                max_paths=ctx.pick(400, 8000))
+                max_paths=ctx.pick(200, 5000))
         stage_b(ctx, 'ed25519', consts(INSTS2, 2, 'WEd', unk, has, anchors='MCAnchorsGood'), pool, cache, ['ed'],
                 max_paths=ctx.pick(60, 400))
         ctx.note('stage B wall %.0fs (incl. learning)' % (time.time() - t1))
